@@ -20,6 +20,7 @@ def describe(ck):
     ck.rule("R06a", "for each format: every token the reader searches for is a substring of a literal the writer of that format emits, and no detection token of format X occurs in a writer literal of format Y")
     ck.rule("R06b", "every copy into msa_seq.name in a reader is bounded by the buffer it writes into (MSA_NAME_LEN-1 guard or allocation size = copy length)")
     ck.rule("R06c", "rows are associated with sequences by position or full-length name comparison; a strncmp whose length is the strlen of one operand (prefix match) does not select a sequence")
+    ck.rule("R06d", "writers emit exactly the columns [0, alnlen) of every row (= R15e; recognised loop shapes only, otherwise no verdict)")
     ck.not_decided += ["equality of the re-read alignment (parser semantics over all names and widths)"]
 
 
@@ -316,6 +317,15 @@ def run(ck, progs):
         ck.attempt(r06a, ck, prog)
         ck.attempt(r06b, ck, prog)
         ck.attempt(r06c, ck, prog)
+        from . import c15
+        before = len(ck.instances)
+        ck.attempt(c15.r15e, ck, prog)
+        for i in ck.instances[before:]:
+            i["rule"] = "R06d"
+        for v in ck.violations:
+            if v["rule"] == "R15e":
+                v["rule"] = "R06d"
+                v["key"] = v["key"].replace("R15e", "R06d")
     return ("Lexical contract between readers and writers computed from the string literals and character constants in "
             "detect_alignment_format / read_* and in the functions reachable from each writer; bound of every store and "
             "copy into msa_seq.name; classification of every bounded string comparison in the library.")
